@@ -126,6 +126,19 @@ claim("C10", "proof",
       "driver and is validated only by the correspondence; correspondence is sampled.",
       "Lean 4 proof (refinement of the renamer to lexical resolution) + per-occurrence correspondence", "5 (C10)")
 
+claim("C14", "proof",
+      "Translation validation with a verified checker. Lean 4 theorems (Props/C14.lean): if the local certificate check of an SSA CFG passes "
+      "(edge conditions against a per-block entry map, reads evaluated in the running map, phis as a prefix), then for EVERY path from the "
+      "entry, of any length, executing the path yields the certificate's map at the end of each block, every read of every non-phi statement "
+      "names the version most recently assigned on that path (an element-wise update of a declared but unassigned array reads the version "
+      "defined by its declaration), and every version reaching a join on some path is an argument of the phi. The check, plus the static "
+      "clauses (unique definitions, phis at block heads, signals/components unversioned and locals versioned, every version declared, non-phi "
+      "statements equal to the pre-SSA ones) is run on every real SSA CFG of hand-written and generated definitions. NOT proved: that the "
+      "SSA construction passes the check for every CFG (stated as C14_construction_statement).",
+      "Lean kernel + standard axioms; abstraction of the dump into (target, reads, implicit definition) per statement is driver code; the "
+      "universal claim about the algorithm is validated per instance, not proved.",
+      "Lean 4 proof of a certificate checker's soundness for all paths + per-instance checking of real SSA CFGs", "5 (C14)")
+
 ALL = ["C%02d" % i for i in range(1, 21)]
 def main():
     checks = []
